@@ -34,18 +34,30 @@ use crate::{META_QUERY_SERVICE, SERVICE_NAME};
 /// with the length of the contained `Multiaddr`.
 const MAX_TXT_VALUE_LENGTH: usize = 255;
 
-/// A conservative maximum size (in bytes) of a complete TXT record,
-/// as encoded by [`append_txt_record`].
-const MAX_TXT_RECORD_SIZE: usize = MAX_TXT_VALUE_LENGTH + 45;
+/// The maximum length (in bytes) of the QNAME-encoded random peer name produced by
+/// [`generate_peer_name`]: a single label of at most 63 characters, its length
+/// byte and the terminating root label.
+const MAX_PEER_NAME_LENGTH: usize = 63 + 2;
+
+/// The maximum size (in bytes) of a complete TXT record, as encoded by
+/// [`append_txt_record`]: the record name, 10 bytes of type, class, TTL and
+/// RDLENGTH, and the length-prefixed TXT value.
+const MAX_TXT_RECORD_SIZE: usize = MAX_PEER_NAME_LENGTH + 10 + 1 + MAX_TXT_VALUE_LENGTH;
 
 /// The maximum DNS packet size is 9000 bytes less the maximum
 /// sizes of the IP (60) and UDP (8) headers.
 const MAX_PACKET_SIZE: usize = 9000 - 68;
 
-/// A conservative maximum number of records that can be packed into
-/// a single DNS UDP packet, allowing up to 100 bytes of MDNS packet
-/// header data to be added by [`query_response_packet()`].
-const MAX_RECORDS_PER_PACKET: usize = (MAX_PACKET_SIZE - 100) / MAX_TXT_RECORD_SIZE;
+/// The maximum size (in bytes) of the MDNS packet header data added by
+/// [`query_response_packet()`]: the 12 byte DNS header and the PTR answer, i.e.
+/// the QNAME-encoded service name, 10 bytes of type, class, TTL and RDLENGTH,
+/// and the peer name.
+const MAX_PACKET_HEADER_SIZE: usize = 12 + (SERVICE_NAME.len() + 2) + 10 + MAX_PEER_NAME_LENGTH;
+
+/// The maximum number of records that can be packed into a single DNS UDP
+/// packet, such that the packet never exceeds [`MAX_PACKET_SIZE`].
+const MAX_RECORDS_PER_PACKET: usize =
+    (MAX_PACKET_SIZE - MAX_PACKET_HEADER_SIZE) / MAX_TXT_RECORD_SIZE;
 
 /// An encoded MDNS packet.
 pub(crate) type MdnsPacket = Vec<u8>;
@@ -117,7 +129,7 @@ pub(crate) fn build_query_response<'a>(
     let addresses = addresses.take(65535);
 
     let peer_name_bytes = generate_peer_name();
-    debug_assert!(peer_name_bytes.len() <= 0xffff);
+    debug_assert!(peer_name_bytes.len() <= MAX_PEER_NAME_LENGTH);
 
     // The accumulated response packets.
     let mut packets = Vec::new();
